@@ -155,6 +155,22 @@ class Arrays(Relation):
                               and np.array_equal(it.x, bx[k])
                               and np.array_equal(it.y, by[k]),
                               'iter | element differs from (x[k], y[k])')
+                    # an element is a coordinate like any other: the same
+                    # kind of values as indexing gives, usable in arithmetic
+                    ref_it = pc[k]
+                    ctx.check(type(it.x) is type(ref_it.x)
+                              and np.shape(it.x) == np.shape(bx[k])
+                              and it.isscalar == ref_it.isscalar,
+                              'iter | element is not the kind of coordinate '
+                              'that indexing gives',
+                              f'{type(it.x).__name__} {np.shape(it.x)} vs '
+                              f'{type(ref_it.x).__name__} {np.shape(bx[k])}')
+                    tw = it + it
+                    ctx.check(np.shape(tw.x) == np.shape(bx[k])
+                              and np.array_equal(tw.x, np.add(bx[k], bx[k]))
+                              and np.array_equal(tw.y, np.add(by[k], by[k])),
+                              'iter | element + element is not the '
+                              'component-wise sum')
             # indexing
             key = _index(sp['index'], shape, sp['ints'], sp['bools'])
             try:
